@@ -54,6 +54,21 @@ def short(x, bits=12):
 
 
 # ---- stub modules ------------------------------------------------------------------------------
+LANE = 16.0  # particle p starts in lane p: X = LANE * p + LANE / 2
+MULT = np.array([1.0, 2.0, 0.5])
+
+
+def metric_at(dxt, dyt, X, Y):
+    """The stub grid's metric: a function of POSITION only (as a real grid's is): the lane of X selects the
+    base spacing, the row of Y / the column of X a power-of-two factor.  Positions may be astronomically
+    large (metric 1e-3 m with D = 1e3); every step of the computation below is exact in floats."""
+    X, Y = np.asarray(X, dtype=float), np.asarray(Y, dtype=float)
+    lane = np.mod(np.floor(X / LANE), float(len(dxt))).astype(int)
+    ry = np.mod(np.floor(np.abs(Y)), 3.0).astype(int)
+    rx = np.mod(np.floor(np.abs(X)), 3.0).astype(int)
+    return dxt[lane] * MULT[ry], dyt[lane] * MULT[rx]
+
+
 class StubGrid:
     xmin, xmax, ymin, ymax = -1.0e30, 1.0e30, -1.0e30, 1.0e30
 
@@ -61,8 +76,7 @@ class StubGrid:
         self.dx, self.dy, self.h = dx, dy, h
 
     def metric(self, X, Y):
-        n = len(X)
-        return self.dx[:n].copy(), self.dy[:n].copy()
+        return metric_at(self.dx, self.dy, X, Y)
 
     def ingrid(self, X, Y):
         return np.ones(len(X), dtype=bool)
@@ -198,9 +212,10 @@ def run_small(desc, seed):
     for s in range(steps):
         ns = desc["ns"][s]
         if ns > n:
-            state.append(X=np.zeros(ns - n), Y=np.zeros(ns - n), Z=z0[n:ns].copy())
+            state.append(X=LANE * np.arange(n, ns) + LANE / 2, Y=np.full(ns - n, 0.5), Z=z0[n:ns].copy())
             n = ns
         before = (state.X.copy(), state.Y.copy(), state.Z.copy())
+        mdx, mdy = metric_at(dx, dy, before[0], before[1])
         tr.update()
         after = (state.X.copy(), state.Y.copy(), state.Z.copy())
         got = advance_to(ref, tr.rng.bit_generator.state, 4 * n + 8)
@@ -209,7 +224,7 @@ def run_small(desc, seed):
             got = []
             ref = np.random.default_rng()
             ref.bit_generator.state = tr.rng.bit_generator.state
-        rec["steps"].append({"n": n, "cnt": len(got), "before": before, "after": after})
+        rec["steps"].append({"n": n, "cnt": len(got), "before": before, "after": after, "dx": mdx, "dy": mdy})
         rec["xi"].extend(got)
     rec["final_state"] = tr.rng.bit_generator.state
     return rec
@@ -219,10 +234,9 @@ def encode_small(desc, rec):
     D, Dz, dt = desc["D"], desc["Dz"], desc["dt"]
     _, _, vadv = mode_flags(desc["mode"])
     nmax = len(desc["dx"])
-    ints = fl(D) + fl(Dz) + fl(float(dt)) + fl(rec["sd"]) + fl(rec["sdz"]) + [1 if vadv else 0, nmax]
-    for p in range(nmax):
-        for a in (rec["dx"], rec["dy"], rec["u"] if desc["adv"] else np.zeros(nmax), rec["v"] if desc["adv"] else np.zeros(nmax), rec["w"]):
-            ints += fl(float(a[p]))
+    ints = fl(D) + fl(Dz) + fl(float(dt)) + fl(rec["sd"]) + fl(rec["sdz"]) + [1 if vadv else 0]
+    uu = rec["u"] if desc["adv"] else np.zeros(nmax)
+    vv = rec["v"] if desc["adv"] else np.zeros(nmax)
     ints += [len(rec["xi"])]
     for x in rec["xi"]:
         ints += fl(x)
@@ -230,6 +244,8 @@ def encode_small(desc, rec):
     for st in rec["steps"]:
         ints += [st["n"], st["cnt"]]
         for p in range(st["n"]):
+            for a in (st["dx"], st["dy"], uu, vv, rec["w"]):
+                ints += fl(float(a[p]))
             for d in range(3):
                 ints += fl(float(st["before"][d][p])) + fl(float(st["after"][d][p]))
     return ints
@@ -252,7 +268,7 @@ def oracle_small(desc, rec):
             for d, name in enumerate("XYZ"):
                 a0, a1 = float(st["before"][d][p]), float(st["after"][d][p])
                 if d < 2:
-                    metric = float((rec["dx"], rec["dy"])[d][p])
+                    metric = float((st["dx"], st["dy"])[d][p])  # the grid's metric where the particle is
                     vel = float((rec["u"], rec["v"])[d][p]) if desc["adv"] else 0.0
                     advd = vel * dt / metric
                     coef = D
@@ -313,8 +329,8 @@ def eval_cloud(desc, ctx):
     hon, von, vadv = mode_flags(desc["mode"])
     sd, sdz = scales(D, Dz, dt)
     p = np.arange(N)
-    dx = desc["dx0"] * (1.0 + (p % 4) / 4.0)
-    dy = desc["dy0"] * (1.0 + (p % 3) / 2.0)
+    dx = desc["dx0"] * (1.0 + np.arange(4) / 4.0)  # the grid's spacing by lane (metric_at)
+    dy = desc["dy0"] * (1.0 + np.arange(4) / 2.0)
     ws = short(sdz) if sdz > 0 else 0.0009765625
     w = np.full(N, desc["wf"] * ws)
     cz = sdz * dt
@@ -325,7 +341,7 @@ def eval_cloud(desc, ctx):
 
     def run(seed):
         tr, state = make_tracker(D, Dz, dt, vadv, False, dx, dy, h, zero, zero, w, seed)
-        state.append(X=np.zeros(N), Y=np.zeros(N), Z=z0.copy())
+        state.append(X=LANE * (p % 4) + LANE / 2, Y=np.full(N, 0.5), Z=z0.copy())
         return tr, state
 
     tr, state = run(desc["seed"])
@@ -339,12 +355,15 @@ def eval_cloud(desc, ctx):
         if not abs(value) <= bound:
             problems.append(f"{what}: {value:.6g} outside +-{bound:.6g} (6 sigma)")
 
-    start = (state.X.copy(), state.Y.copy(), state.Z.copy())
+    tot = {"X": np.zeros(N), "Y": np.zeros(N), "Z": np.zeros(N)}
     for s in range(steps):
         b = (state.X.copy(), state.Y.copy(), state.Z.copy())
+        mdx, mdy = metric_at(dx, dy, b[0], b[1])  # the spacing where each particle is at this step
         tr.update()
-        d = {"X": (state.X - b[0]) * dx, "Y": (state.Y - b[1]) * dy,
+        d = {"X": (state.X - b[0]) * mdx, "Y": (state.Y - b[1]) * mdy,
              "Z": (state.Z - b[2]) - (w * dt if vadv else 0.0)}
+        for name in "XYZ":
+            tot[name] += d[name]
         for name in "XYZ":
             v2, e = sig2[name], d[name]
             if v2 <= 0:
@@ -368,8 +387,6 @@ def eval_cloud(desc, ctx):
         if len(problems) > 5:
             break
     t = steps * dt
-    tot = {"X": (state.X - start[0]) * dx, "Y": (state.Y - start[1]) * dy,
-           "Z": (state.Z - start[2]) - (w * t if vadv else 0.0)}
     summary = {}
     for name in "XYZ":
         v2 = sig2[name] * steps  # 2*D*t
